@@ -91,7 +91,9 @@ pub fn run(args: &Args) {
             let mut tr = TraceOut::create(args.out.as_deref().unwrap_or(""));
             let mut res = Results::create(args.res.as_deref().unwrap_or(""));
             let sessions = if args.thorough { 400 } else { 60 };
-            for _ in 0..sessions {
+            for session in 0..sessions {
+                // every fifth session all recorded durations are 0 s: a mean of zero is history like any other
+                let zero_session = session % 5 == 4;
                 let mut stats = ChunkTimingStats::new();
                 tr.ev(json!({"op": "reset"}));
                 let nkeys = 1 + rng.below(4);
@@ -101,7 +103,7 @@ pub fn run(args: &Args) {
                     match rng.below(10) {
                         0..=5 => {
                             let (t, wf, ch) = *rng.pick(&keys);
-                            let dur = match rng.below(4) { 0 => 0, 1 => 60_000, _ => rng.below(60_001) } as i64;
+                            let dur = if zero_session { 0 } else { (match rng.below(4) { 0 => 0, 1 => 60_000, _ => rng.below(60_001) }) as i64 };
                             let att = 1 + rng.below(5) as usize;
                             stats.add_timing(ChunkCharacteristics { chunk_type: ty_enum(t), waveform_type: wf_enum(wf), channel_configuration: ch_enum(ch) }, Duration::milliseconds(dur), att);
                             tr.ev(json!({"op": "add", "t": t, "wf": wf, "ch": ch, "dur": dur, "att": att}));
